@@ -27,6 +27,9 @@ CHECKS = {
     "C08": dict(engine="core(sched)", technique=PBT + "generated trace/thread histories + schedules; oracle: collector_stats() zero at quiescence and bounded by in-flight traces/live threads at every idle point",
                 text="Exploration: 24k scheduled histories per quick run in both configurations, stats sampled after every cycle.",
                 note="Only the four counters exposed by the verification hook are observed."),
+    "C09": dict(engine="core(sched+api)", level="fault_enumeration", technique=PBT + "fault injection: generated ring-fill episodes and scope-limit bursts inside generated programs and schedules; oracle: missing subset of permitted (submits logged as dropped with free==0), delivered records correct, per-ring order of commit/drop commands issued == received, recovery complete",
+                text="Fault enumeration by generation: ~12k scheduled cases with ring-fill episodes (0-3 slots left) plus ~600 scope/nesting-limit bursts per quick run; every full-queue push and its outcome is observed through the hooks and the oracle admits only those omissions.",
+                note="Ring capacity, scope capacity and nesting limit are the compiled-in constants. Hook log (command issued / pushed / received per ring) is trusted."),
     "C10": dict(engine="core(api)", technique=PBT + "generated well-nested scope sequences with context probes; oracle: metamorphic frame condition (observation after close == before open, same context version => same observation) and inertness without scope",
                 text="Exploration: 24k programs per quick run.",
                 note="The observation is current_local_parent(), the parent of a probe span and the record a probe event lands on."),
@@ -68,7 +71,7 @@ def main():
             "guard": "fastrace_verif",
             "enable": "RUSTFLAGS=\"--cfg fastrace_verif\" (set by /verif/check for the hooked target directory /verif/target/hooked)",
             "baseline_off_cmd": "cd /repo && cargo test --workspace --no-fail-fast --offline",
-            "source_commits": ["4df235e"],
+            "source_commits": ["4df235e", "cfeb20b"],
             "add_only": True,
         },
         "engines": [
